@@ -148,4 +148,19 @@ PROPS["C06"] = {
     "assumptions": COMMON_ASSUMPTIONS,
 }
 
+DEC_RULE = ("generic reflection harness, decode side: every encoding captured from the api/enc/prog cases and hand-built wire images of every switch-sent kind, "
+            "each with all truncations, per-byte corruptions of the length/type/count bytes, trailing junk and spare capacity (the slice's backing array is "
+            "longer than len, as in the stream's pooled buffers); random byte strings. Non-trivial = the decoder returned a value (not an error).")
+PROPS["C12"] = {
+    "families": ["OF"], "ops": "scribble,parse", "gen_deps": [],
+    "rule": "scribble: every message that Parse accepts among the generated frames (api/enc encodings of every kind incl. packet-in with Ethernet/IPv4/IPv6/ARP/ICMP/UDP "
+            "payloads, vendor and bundle messages with properties, multipart replies; their corruptions) is parsed from a private copy, the WHOLE backing array "
+            "(len and spare capacity) is then overwritten twice with different patterns, and the message dump and its re-encoding are compared with the ones taken "
+            "before. Non-trivial = Parse returned a message.",
+    "trivial_outputs": ["err", "panic", "-"],
+    "level_text": "Theorems about facts regenerated from the Go source on every run: the syntactic taint analysis `retained` (every statement that keeps a sub-slice of a []byte parameter instead of a copy) has no entry inside a function reachable from openflow13.Parse in the RTA call graph `parseReach`; non-vacuity of both (the graph reaches packet-in/Ethernet/IP/vendor/bundle/multipart decoders; the analysis does flag the aliasing sites outside Parse's reach). The model itself has value semantics, so aliasing is decided dynamically: the scribble oracle on the real parser for every generated frame.",
+    "level_note": OF_NOTE + " The aliasing theorem is about extractor output (trusted: ofvextract's taint rules and call graph); sharing through unsafe or reflection is outside it.",
+    "assumptions": COMMON_ASSUMPTIONS + ["aliasing can only arise from the statement forms the taint analysis knows (store, append element, NewBuffer, composite literal, return, send)"],
+}
+
 NOT_YET = {}
